@@ -32,6 +32,23 @@ class FromNpyStack(IO):
     def chunks(self):
         return self._info["chunks"]
 
+    def __dask_tokenize__(self):
+        # The directory's ``info`` file is part of what this node denotes: a
+        # stack rewritten in place (other chunks, other data) must not be
+        # handed the live node of the previous one.
+        if not self._determ_token:
+            from dask.tokenize import _tokenize_deterministic
+
+            dirname = self.operand("dirname")
+            try:
+                info_path = os.path.join(dirname, "info")
+                with open(info_path, "rb") as f:
+                    stamp = (f.read(), os.stat(info_path).st_mtime_ns)
+            except OSError:
+                stamp = None
+            self._determ_token = _tokenize_deterministic(type(self), dirname, self.operand("mmap_mode"), stamp)
+        return self._determ_token
+
     @functools.cached_property
     def _name(self):
         return "from-npy-stack-" + self.deterministic_token
